@@ -378,3 +378,48 @@ pub fn features(p: &Program) -> Features {
     walk(&p.body, &mut f, &fnames);
     f
 }
+
+// ---- renaming (used to give main parameters lower-case names for the unused-argument check)
+impl Pat {
+    pub fn rename(&self, f: &dyn Fn(&str) -> String) -> Pat {
+        match self {
+            Pat::Nil => Pat::Nil,
+            Pat::Var(n) => Pat::Var(f(n)),
+            Pat::Cons(a, b) => Pat::Cons(Box::new(a.rename(f)), Box::new(b.rename(f))),
+            Pat::At(n, p) => Pat::At(f(n), Box::new(p.rename(f))),
+        }
+    }
+}
+impl Expr {
+    pub fn rename(&self, f: &dyn Fn(&str) -> String) -> Expr {
+        let rs = |v: &Vec<Expr>| v.iter().map(|e| e.rename(f)).collect::<Vec<_>>();
+        match self {
+            Expr::Lit(v) => Expr::Lit(v.clone()),
+            Expr::Var(n) => Expr::Var(f(n)),
+            Expr::Prim(o, a) => Expr::Prim(*o, rs(a)),
+            Expr::Call(n, a, r) => Expr::Call(n.clone(), rs(a), r.as_ref().map(|x| Box::new(x.rename(f)))),
+            Expr::If(c, t, e) => Expr::If(Box::new(c.rename(f)), Box::new(t.rename(f)), Box::new(e.rename(f))),
+            Expr::List(a) => Expr::List(rs(a)),
+            Expr::Let(s, bs, b) => Expr::Let(*s, bs.iter().map(|(n, e)| (f(n), e.rename(f))).collect(), Box::new(b.rename(f))),
+            Expr::Assign(bs, b) => Expr::Assign(bs.iter().map(|(p, e)| (p.rename(f), e.rename(f))).collect(), Box::new(b.rename(f))),
+            Expr::Lambda(c, p, b) => Expr::Lambda(c.iter().map(|n| f(n)).collect(), p.rename(f), Box::new(b.rename(f))),
+            Expr::Apply(a, b) => Expr::Apply(Box::new(a.rename(f)), Box::new(b.rename(f))),
+            Expr::Mod(p) => Expr::Mod(p.clone()),
+        }
+    }
+}
+impl Program {
+    /// rename variables (not helper names) everywhere
+    pub fn rename_vars(&self, f: &dyn Fn(&str) -> String) -> Program {
+        Program {
+            args: self.args.rename(f),
+            helpers: self.helpers.iter().map(|h| match h {
+                Helper::Defun { name, pat, body, inline } => Helper::Defun { name: name.clone(), pat: pat.rename(f), body: body.rename(f), inline: *inline },
+                Helper::DefConst { name, expr } => Helper::DefConst { name: name.clone(), expr: expr.rename(f) },
+                Helper::DefMacro { name, params, template } => Helper::DefMacro { name: name.clone(), params: params.iter().map(|n| f(n)).collect(), template: template.rename(f) },
+                other => other.clone(),
+            }).collect(),
+            body: self.body.rename(f),
+        }
+    }
+}
